@@ -67,7 +67,7 @@ def sNum (op a b : String) : String :=
   | "neg" => sprobe (x.map (fun p => -p)) ++ " IP=1"
   | "flip" => sprobe (x.bind (fun p => if p = 0 then none else some p⁻¹))
   | "floor" => match x with
-    | some p => if 0 ≤ p then s!"F={p.floor}" else "F=?"
+    | some p => if 0 ≤ p then s!"F={p.floor}" else s!"F={-((-p).floor)}"   -- C06.floor_trunc
     | none => "F=?"
   | "cmp" => match x, y with
     | some p, some q => (if p < q then "lt" else if p = q then "eq" else "gt") ++ " " ++ b01 (p = q)
